@@ -47,6 +47,13 @@ contract(FT + "::ResourceLock.release", "C14", raises=[],
              "freed-at-zero": "implies(old(self).owner == owner and old(self).hold_count <= 1, self.owner is None)",
          })
 
+# the collaborators the controller contracts assume total: their own totality obligations (add_dependency / remove_all_for_agent: C15)
+shape("ResourceLockW", resource_id="str", owner="opt:str", owner_priority="int", hold_count="int", acquired_at="opt:datetime", allow_preemption="bool",
+      waiting_list="list:tuple:str;int")
+contract(FC + "::OperationContext.enter_phase", "C14", raises=[], ensures={"phase-entered": "self.phase == phase"})
+contract(FC + "::OperationContext.set_result", "C14", params={"result": "any"}, raises=[], ensures={})     # (its parameter is called `result`: no clause about it, the name is the return value in a postcondition)
+contract(FT + "::ResourceLock._add_to_waiting", "C14", self_type="ResourceLockW", raises=[], modifies=["self.waiting_list"], ensures={})
+
 # ------------------------------------------------------------------ controller
 contract(FC + "::CellCycleController.acquire_resource", "C14",
          params={"ctx": "obj:OperationContext"}, pre_state=ALIAS, callbacks=GRAPH, raises=["ValueError"],
